@@ -158,10 +158,34 @@ class C02(SolverSuite):
                 ops.append({"a": "S0", "op": "iterate", "k": k})
         actors = {"S0": spec}
         ops = G.sprinkle_evq(rng, ops, "S0", spec)
+        ops = G.sprinkle_clone(rng, ops, "S0")
         ops = _maybe_company(rng, actors, ops)
-        return gen_self_reads(rng, G.base_plan(self.prop, run_seed, actors, ops, clock=G.gen_clock(rng)))
+        plan = gen_self_reads(rng, G.base_plan(self.prop, run_seed, actors, ops, clock=G.gen_clock(rng)))
+        if rng.random() < 0.08:
+            # a listener of the user fails once and the caller carries on: the completed iterations are all there, so the
+            # decision rule keeps holding for every later trial (unlike after an objective failure, which loses an interval)
+            G.add_listener_fault(rng, plan)
+        return plan
 
     def cases(self, rng, tier, run_seed, idx=0):
+        if idx % 40 == 13:
+            # driver-stepped onto a sharp minimum / a box corner until double precision is exhausted: the library must stop
+            # with its own error exactly when the rule's point is no longer strictly inside the interval, not before, and never
+            # evaluate a coordinate twice
+            N = rng.choice([1, 1, 2])
+            lower, upper = objectives.gen_box(rng, N)
+            fam = rng.choice([["linear"], ["cones"], ["cones"]])
+            obj = objectives.gen_spec(rng, N, lower, upper, fam)
+            if obj["family"] == "cones":
+                obj["terms"] = obj["terms"][:1]
+            spec = {"kind": "solver", "objective": obj, "lower": lower, "upper": upper,
+                    "params": {"r": G.gen_r(rng), "eps": 1e-30, "itersLimit": rng.randint(200, 500), "evolventDensity": 10, "refineSolution": False},
+                    "listeners": []}
+            ops = [{"a": "S0", "op": "create"}] + [{"a": "S0", "op": "iterate", "k": k} for k in G.gen_batches(rng, rng.randint(60, 160) * N)]
+            if rng.random() < 0.4:
+                ops.append({"a": "S0", "op": "solve"})
+            yield G.base_plan(self.prop, run_seed, {"S0": spec}, ops, clock=G.gen_clock(rng), corner_run=True)
+            return
         if tier == "thorough" and idx % 1500 == 77:
             # very long driver-stepped histories (5-16 thousand trials, N=1..2) on plateau-rich and ordinary objectives:
             # thousands of consecutive iterations without a change of M or z* (a characteristics queue that silently
@@ -242,7 +266,7 @@ class C03(SolverSuite):
             ops += [{"a": "S0", "op": "solve"}] + ([{"a": "S0", "op": "solve"}] if rng.random() < 0.3 else [])
             plan["ops"] = ops
             plan["faults"] = [{"a": "S0", "at_eval": rng.randint(1, sum(pre_b) + 3), "exc": rng.choice(["ValueError", "KeyboardInterrupt", "SimFault"]),
-                               "when": rng.choice(["before", "after"]), "persistent": False, "noargs": rng.random() < 0.3}]
+                               "when": rng.choice(["before", "after"]), "persistent": rng.random() < 0.3, "noargs": rng.random() < 0.3}]
             plan["continue_after_fault"] = True
         return plan
 
@@ -322,11 +346,14 @@ class C04(SolverSuite):
                                after_solve_iters=rng.choice([0, rng.randint(1, 8)]), refine_ops=rng.random() < 0.2)
         actors = {"S0": spec}
         ops = G.sprinkle_evq(rng, ops, "S0", spec)
+        ops = G.sprinkle_clone(rng, ops, "S0")
         ops = _maybe_company(rng, actors, ops)
         plan = G.base_plan(self.prop, run_seed, actors, ops, clock=G.gen_clock(rng))
         if "S1" in actors and rng.random() < 0.5:
             plan["nested"] = gen_nested(rng, plan, max_entries=2)
         gen_self_reads(rng, plan)
+        if rng.random() < 0.06 and not spec.get("listeners"):
+            return G.add_listener_fault(rng, plan)
         if spec["params"].get("refineSolution") and not spec.get("listeners") and rng.random() < 0.3:
             # fault configuration with refinement on: the failing evaluation may be a global trial, any Nelder-Mead
             # evaluation, or the final re-evaluation of the refined point (contained by Solve; the driver goes on)
@@ -420,11 +447,19 @@ class C06(SolverSuite):
                                after_solve_iters=rng.choice([0, rng.randint(1, 8)]), refine_ops=rng.random() < 0.15)
         actors = {"S0": spec}
         ops = G.sprinkle_evq(rng, ops, "S0", spec)
+        ops = G.sprinkle_clone(rng, ops, "S0")
         ops = _maybe_company(rng, actors, ops)
         plan = G.base_plan(self.prop, run_seed, actors, ops, clock=G.gen_clock(rng))
         if "S1" in actors and rng.random() < 0.5:
             plan["nested"] = gen_nested(rng, plan, max_entries=2)
         gen_self_reads(rng, plan)
+        if rng.random() < 0.06:
+            return G.add_listener_fault(rng, plan)
+        if rng.random() < 0.03:
+            # driver-stepped to double-precision exhaustion (see C02)
+            plan2 = next(iter(C02().cases(rng, "quick", run_seed, idx=13)))
+            plan2["property"] = self.prop
+            return plan2
         return maybe_fault(rng, plan)
 
     def nontrivial_key(self, plan, w):
@@ -458,6 +493,7 @@ class C20(SolverSuite):
         pre = rng.choice([0, rng.randint(0, L)])
         ops = G.gen_single_ops(rng, "S0", pre, with_solve=True, results_prob=0.05)
         ops = G.sprinkle_evq(rng, ops, "S0", spec, prob=0.2)
+        ops = G.sprinkle_clone(rng, ops, "S0", prob=0.08)
         actors = {"S0": spec}
         if rng.random() < 0.3:
             # company: solvers (or a bare construction) with OTHER densities whose lifetimes overlap with S0's
